@@ -1,6 +1,16 @@
+//go:build !verif
 // +build !verif
 
 package storage
 
+import (
+	"github.com/marekgalovic/anndb/storage/wal"
+
+	uuid "github.com/satori/go.uuid"
+)
+
 // verifPause is a no-op unless built with -tags verif (see verif_hooks.go).
 func verifPause(point string) {}
+
+// verifWrapWAL is the identity unless built with -tags verif.
+func verifWrapWAL(id uuid.UUID, w wal.WAL) wal.WAL { return w }
